@@ -1384,7 +1384,90 @@ Proof.
       destruct (Un B HB2) as [U1 U2]. split; [rewrite Eq; exact U1|].
       rewrite cfg_in_app, U2. cbn. destruct (N.eqb addr B) eqn:E; [apply N.eqb_eq in E; congruence|reflexivity].
     + intros a Ha. cbn in Ha. apply insert_assoc_in in Ha as [->|Ha]; rewrite cfg_in_app.
-      * Show. admit.
-      * admit.
-  - admit.
+      * change (ms_a_addr a0) with addr. change (ms_a_cfg a0) with c.
+        rewrite (proj2 (Un addr Hf)). cbn. rewrite N.eqb_refl. reflexivity.
+      * rewrite (Cf a Ha). reflexivity.
+  - unfold INVP in *. cbn. destruct (ms_m_phase st) as [|u|r|]; auto;
+      rewrite outstanding_app_neutral; auto; repeat constructor.
+Qed.
+
+Lemma queue_task_LS now con tok uk a : forall a' o, ms_queue_task now con tok uk a = (a', o) ->
+  LS a o a' /\ Forall out_neutral o.
+Proof.
+  intros a' o. unfold ms_queue_task.
+  assert (U : forall e, ms_task_error now (ms_user_task tok uk) e false a = (a', o) ->
+              LS a o a' /\ Forall out_neutral o).
+  { intros e. destruct uk; cbn; intros H; inversion H; subst;
+      (split; [apply LS_neutral; auto; neutral_tac|repeat constructor]). }
+  destruct con; [destruct (Nat.ltb _ _)|]; try apply U.
+  intros H; inversion H; subst. split; [apply LS_set_queue|constructor].
+Qed.
+
+Lemma upd_msg_OK st h addr f st' o :
+  INV st h -> (forall a a' o, f a = (a', o) -> LS a o a' /\ Forall out_neutral o) ->
+  (let '(st1, o1) := ms_update_assoc st addr f in
+   let '(st2, o2) := ms_after_message st1 in (st2, o1 ++ o2)) = (st', o) -> OKR h st' o.
+Proof.
+  intros [I0 P0] Hf. destruct (ms_update_assoc st addr f) as [st1 o1] eqn:Eu.
+  destruct (ms_after_message st1) as [st2 o2] eqn:Em. intros H; injection H as <- <-.
+  assert (On : Forall out_neutral o1).
+  { unfold ms_update_assoc in Eu. destruct (ms_find_assoc addr (ms_m_assocs st)) as [a|]; [|inversion Eu; constructor].
+    destruct (f a) as [a1 ox] eqn:Ef. inversion Eu; subst. exact (proj2 (Hf _ _ _ Ef)). }
+  apply update_assoc_TR in Eu; [|exact (inv_nodup _ _ I0)|intros a a' ox Hx; exact (proj1 (Hf _ _ _ Hx))].
+  destruct Eu as (T & Ph & L).
+  assert (I1 : INV st1 (h ++ o1)).
+  { split; [eapply TR_INVA; eassumption|]. unfold INVP in *. rewrite Ph.
+    destruct (ms_m_phase st) as [|u|r|]; auto; rewrite outstanding_app_neutral; auto. }
+  eapply OKR_seq; [|eapply after_message_OK; [exact I1|exact Em]].
+  split; [exact I1|apply GOOD_nostart, local_nostart; exact L].
+Qed.
+
+Theorem mstep_OK fuel st h ev st' o : INV st h -> ms_mstep fuel st ev = (st', o) -> OKR h st' o.
+Proof.
+  intros I0. unfold ms_mstep.
+  destruct (ms_m_phase st) as [|u|r|] eqn:Ph.
+  4:{ intros H; injection H as <- <-. apply OKR_nil; exact I0. }
+  all: assert (Hns : ms_m_phase st <> MsPStalled) by (rewrite Ph; discriminate).
+  all: assert (Hcon : ms_connected st = match ms_m_phase st with MsPDown => false | _ => true end) by reflexivity.
+  all: rewrite Ph in Hcon.
+  all: destruct ev as [|addr c|src rx|d|a tok uk|a period m|a id| | | |v|].
+  all: try (apply advance_OK; exact I0).
+  all: try (apply on_rx_OK; exact I0).
+  all: try (intros H; injection H as <- <-;
+            split; [destruct I0 as [IA IP]; split;
+                    [apply INVA_quiet; [exact IA|repeat constructor]
+                    |unfold INVP in *; cbn; rewrite Ph in *; cbn in IP |- *;
+                     try (rewrite outstanding_app_neutral; [exact IP|repeat constructor]); auto]
+                  |apply GOOD_nostart; repeat constructor]; fail).
+  all: try (intros H; injection H as <- <-; apply OKR_nil; eapply INV_same; [| |exact I0]; reflexivity).
+  all: try (apply upd_msg_OK; [exact I0|];
+            first [ intros x x' ox; apply queue_task_LS
+                  | intros x x' ox Hx; inversion Hx; subst; split; [apply LS_set_polls|constructor] ]).
+  all: try (destruct (ms_find_assoc addr (ms_m_assocs st)) eqn:Ef;
+            [intros H; injection H as <- <-; apply OKR_nil; exact I0|];
+            match goal with |- context [ms_after_message ?s] => destruct (ms_after_message s) as [st2 o2] eqn:Em end;
+            intros H; injection H as <- <-;
+            pose proof (add_assoc_INV _ _ addr c I0 Ef) as I1;
+            change (MsOAssoc (ms_m_now st) addr c :: o2) with ([MsOAssoc (ms_m_now st) addr c] ++ o2);
+            eapply OKR_seq; [split; [exact I1|apply GOOD_nostart; repeat constructor]
+                            |eapply after_message_OK; [exact I1|exact Em]]).
+  all: unfold ms_connected; rewrite ?Ph; cbn [andb negb].
+  all: try (apply close_session_OK; [eapply INV_same; [| |exact I0]; reflexivity|cbn; rewrite Ph; discriminate]).
+  all: try (apply after_message_OK; eapply INV_same; [| |exact I0]; reflexivity).
+  all: try (destruct (ms_m_enabled st); cbn [andb]).
+  all: try (intros H; injection H as <- <-; apply OKR_nil; exact I0).
+  all: try (destruct I0 as [IA IP]; unfold INVP in IP; rewrite Ph in IP;
+            apply open_session_OK; [constructor; destruct IA; assumption|exact IP]).
+  all: try (destruct (ms_close_session st MsELink) as [st1 o1] eqn:Ec;
+            destruct (ms_open_session st1) as [st2 o2] eqn:Eo;
+            intros H; injection H as <- <-;
+            pose proof (close_session_OK _ _ _ _ _ I0 Hns Ec) as O1;
+            eapply OKR_seq; [exact O1|];
+            destruct O1 as [[IA1 IP1] _];
+            assert (Pd : ms_m_phase st1 = MsPDown)
+              by (unfold ms_close_session in Ec; destruct (ms_fail_running st MsELink);
+                  destruct (ms_reset_all _ _); inversion Ec; reflexivity);
+            unfold INVP in IP1; rewrite Pd in IP1;
+            apply open_session_OK; [exact IA1|exact IP1|exact Eo]).
+  Show.
 Admitted.
